@@ -5,9 +5,9 @@
 cd /verif/harness && CARGO_NET_OFFLINE=true cargo build --release 2>/dev/null || exit 2
 BIN=/tmp/check-thorough-$$; cp target/release/check $BIN
 IDS="$@"; [ -z "$IDS" ] && IDS=$(python3 -c "import json;print(' '.join(p['property_id'] for p in json.load(open('/verif/MANIFEST.json'))['checks']))")
-: > /tmp/thorough.log
+LOG=${LOG:-/tmp/thorough.log}; : > $LOG
 for ID in $IDS; do
   t0=$(date +%s); out=$(VERIF_ROOT=/verif $BIN $ID --tier thorough 2>&1); rc=$?
-  echo "$ID exit=$rc $(( $(date +%s) - t0 ))s $(echo "$out" | grep -E '^(OK|VIOLATION|MACHINERY|\[harness)' | head -2 | tr '\n' ' ' | cut -c1-220) known=$(echo "$out" | grep -c '^KNOWN-FINDING')" >> /tmp/thorough.log
+  echo "$ID exit=$rc $(( $(date +%s) - t0 ))s $(echo "$out" | grep -E '^(OK|VIOLATION|MACHINERY|\[harness)' | head -2 | tr '\n' ' ' | cut -c1-220) known=$(echo "$out" | grep -c '^KNOWN-FINDING')" >> $LOG
 done
 rm -f $BIN
